@@ -87,13 +87,27 @@ def out_dirs(root, name, kinds):
     return {k: os.path.join(base, k) for k in kinds}
 
 
-def argv_for(job, outs, skip=False, process_count=1, skip_missing_xml=False, transcriptions_file=None):
-    a = ["parse_folder.py", "-c", job["config"], "-i", job["img"], "-x", job["xml"], "--device", "cpu",
-         "--process-count", str(process_count)]
+def argv_for(job, outs, skip=False, process_count=1, skip_missing_xml=False, transcriptions_file=None, paths_in_config=False):
     flag = {"xml": "--output-xml-path", "render": "--output-render-path", "logits": "--output-logit-path",
             "alto": "--output-alto-path", "lines": "--output-line-path"}
-    for k, d in outs.items():
-        a += [flag[k], d]
+    if paths_in_config:
+        # the documented alternative to the command-line options: all paths in the [PARSE_FOLDER] section of the configuration
+        import hashlib
+        keys = {"xml": "OUTPUT_XML_PATH", "render": "OUTPUT_RENDER_PATH", "logits": "OUTPUT_LOGIT_PATH", "alto": "OUTPUT_ALTO_PATH",
+                "lines": "OUTPUT_LINE_PATH"}
+        base = open(job["config"]).read()
+        sect = "" if "[PARSE_FOLDER]" in base else "\n[PARSE_FOLDER]\n"
+        body = base + sect + "INPUT_IMAGE_PATH = %s\nINPUT_XML_PATH = %s\n" % (job["img"].replace("%", "%%"), job["xml"].replace("%", "%%"))
+        body += "".join("%s = %s\n" % (keys[k], d.replace("%", "%%")) for k, d in outs.items())
+        cfg = os.path.join(job["root"], "config_paths_%s.ini" % hashlib.sha1(body.encode()).hexdigest()[:10])
+        with open(cfg, "w") as f:
+            f.write(body)
+        a = ["parse_folder.py", "-c", cfg, "--device", "cpu", "--process-count", str(process_count)]
+    else:
+        a = ["parse_folder.py", "-c", job["config"], "-i", job["img"], "-x", job["xml"], "--device", "cpu",
+             "--process-count", str(process_count)]
+        for k, d in outs.items():
+            a += [flag[k], d]
     if skip:
         a.append("-s")
     if skip_missing_xml:
